@@ -143,183 +143,11 @@ fn symbolic_table_n(nb: usize, nsym: usize) -> RoutingTable {
     t
 }
 
-/// C09 (b): enumerate the nearest nodes of a target whose shared prefix with the local id is `s`.
-fn closest(nb: usize, s: usize) {
-    closest_n(nb, s, 8)
-}
+// (The whole-enumeration harness over table contents - `ClosestNodes::next` - did not terminate
+// and was removed: DESIGN.md F23. The set-up of the enumeration is checked by `closest_setup`.)
 
-fn closest_n(nb: usize, s: usize, nsym: usize) {
-    clock::start_fixed();
-    let table = symbolic_table_n(nb, nsym);
-    let target = crate::verif::id_with_prefix(s, 200);
-    // reference: which slots are live
-    let mut live = [false; 24];
-    let mut n_live = 0usize;
-    let mut i = 0;
-    while i < nb {
-        let mut j = 0;
-        for node in table.buckets[i].iter() {
-            if node.status() != NodeStatus::Bad {
-                live[i * 8 + j] = true;
-                n_live += 1;
-            }
-            j += 1;
-        }
-        i += 1;
-    }
-    let mut seen = [false; 24];
-    let mut yielded = 0usize;
-    let mut last_dist = 0usize;
-    let mut it = table.closest_nodes(target);
-    let mut k = 0;
-    while k < nb * 8 + 1 {
-        match it.next() {
-            Some(node) => {
-                let key = (node.id().as_ref()[19] - 1) as usize;
-                assert!(key < nb * 8, "C09: enumeration yields a node that is not in the table");
-                assert!(live[key], "C09: enumeration yields a node in bad standing");
-                assert!(!seen[key], "C09: enumeration yields a node twice");
-                seen[key] = true;
-                yielded += 1;
-                let d = dist(slot_ideal(nb, key / 8, key % 8), s);
-                assert!(d >= last_dist, "C09: a node of a nearer bucket is yielded after a farther one");
-                last_dist = d;
-            }
-            None => break,
-        }
-        k += 1;
-    }
-    assert!(yielded == n_live, "C09: enumeration does not visit every live node exactly once");
-    kani::cover!(n_live == nb * 8, "all nodes live");
-    kani::cover!(n_live == 0, "no node live");
-}
-
-
-
-// ---------------------------------------------------------------------------------------------
-// C08 (table level) / C12: one `add_node` / `add_nodes` on a directly constructed table.
-// ---------------------------------------------------------------------------------------------
-
-/// Shape invariant of the live part of the table (local id = 0..0): every live node sits in the
-/// bucket matching its shared prefix, is not the local id, not a router, and appears once.
-fn check_shape(t: &RoutingTable, router: Option<SocketAddr>) {
-    let nb = t.buckets.len();
-    assert!(nb >= 1 && nb <= MAX_BUCKETS, "C08: bucket count out of range");
-    let mut seen = [false; 64];
-    let mut i = 0;
-    while i < nb {
-        for node in t.buckets[i].iter() {
-            if node.status() != NodeStatus::Bad {
-                let lz = leading_bit_count(t.node_id, node.id());
-                assert!(lz != MAX_BUCKETS, "C08: the table lists the node's own id");
-                let want = if lz < nb { lz } else { nb - 1 };
-                assert!(want == i, "C08: a node sits in a bucket that does not match its shared prefix");
-                if let Some(r) = router {
-                    assert!(node.addr() != r, "C08: the table lists a router address");
-                }
-                let key = node.id().as_ref()[19] as usize;
-                assert!(key < 64 && !seen[key], "C08: an (id, address) pair appears twice in the table");
-                seen[key] = true;
-            }
-        }
-        i += 1;
-    }
-}
-
-/// count of live nodes and whether identity `key` is live, and its status
-fn census(t: &RoutingTable, key: u8) -> (usize, Option<NodeStatus>) {
-    let mut live = 0;
-    let mut st = None;
-    for b in t.buckets.iter() {
-        for node in b.iter() {
-            let s = node.status();
-            if s != NodeStatus::Bad {
-                live += 1;
-                if node.id().as_ref()[19] == key {
-                    st = Some(s);
-                }
-            }
-        }
-    }
-    (live, st)
-}
-
-/// One `add_node` of a fresh identity with shared prefix `offer_lz` into a table of `nb` buckets
-/// whose first `nsym` slots per bucket are arbitrary and the rest `fill` (0 empty, 1 good).
-fn table_add(nb: usize, nsym: usize, fill_good: bool, offer_lz: usize) {
-    let as_responder: bool = kani::any();
-    clock::start_fixed();
-    let mut t = symbolic_table_n(nb, nsym);
-    if fill_good {
-        let mut i = 0;
-        while i < nb {
-            let mut j = nsym;
-            while j < 8 {
-                let id = crate::verif::id_with_prefix(slot_ideal(nb, i, j), slot_key(i, j));
-                crate::bucket::verif::set_slot(&mut t.buckets[i], j, Node::as_good(id, concrete_addr_v4(slot_key(i, j))));
-                j += 1;
-            }
-            i += 1;
-        }
-    }
-    check_shape(&t, None);
-    let (live_before, _) = census(&t, 60);
-    let id = if offer_lz == MAX_BUCKETS {
-        NodeId::from([0u8; 20]) // the local id itself
-    } else {
-        crate::verif::id_with_prefix(offer_lz, 59) // key 60
-    };
-    let addr = concrete_addr_v4(59);
-    let node = if as_responder {
-        Node::as_good(id, addr)
-    } else {
-        Node::as_questionable(id, addr)
-    };
-    t.add_node(node);
-    check_shape(&t, None);
-    let (live_after, st) = census(&t, 60);
-    // at most one node lost; never more nodes than before + 1
-    assert!(live_after + 1 >= live_before + if st.is_some() { 1 } else { 0 }, "C08: one offer removed more than one node");
-    assert!(live_after <= live_before + 1, "C08: one offer added more than one node");
-    if offer_lz == MAX_BUCKETS {
-        assert!(st.is_none() && live_after == live_before, "C08: the node's own id was admitted");
-    }
-    if let Some(s) = st {
-        assert!(s == if as_responder { NodeStatus::Good } else { NodeStatus::Questionable }, "C08: offered node stored with a wrong standing");
-    }
-    assert!(t.buckets.len() >= nb, "C08: the table lost a bucket");
-    kani::cover!(t.buckets.len() > nb, "a split happened");
-    kani::cover!(st.is_some(), "the offer was admitted");
-    kani::cover!(st.is_none(), "the offer was refused");
-}
-
-#[kani::proof]
-#[kani::unwind(21)]
-#[kani::stub(std::hash::RandomState::new, crate::verif::stub_random_state_new)]
-fn c08_table_add_b1_sym2_lz0() {
-    table_add(1, 2, true, 0);
-}
-
-#[kani::proof]
-#[kani::unwind(21)]
-#[kani::stub(std::hash::RandomState::new, crate::verif::stub_random_state_new)]
-fn c08_table_add_b1_sym2_lz3() {
-    table_add(1, 2, true, 3);
-}
-
-#[kani::proof]
-#[kani::unwind(21)]
-#[kani::stub(std::hash::RandomState::new, crate::verif::stub_random_state_new)]
-fn c08_table_add_b2_sym2_lz1() {
-    table_add(2, 2, true, 1);
-}
-
-#[kani::proof]
-#[kani::unwind(21)]
-#[kani::stub(std::hash::RandomState::new, crate::verif::stub_random_state_new)]
-fn c08_table_add_own_id() {
-    table_add(2, 2, false, 160);
-}
+// (One `add_node` on a heap-backed table with symbolic slot state, including the split, did not
+// terminate - neither with symbolic nor with concrete table contents - and was removed: DESIGN.md 8.3.)
 
 /// One pass over the table: standing of every live node by identity key, with the shape
 /// invariant (placement, no own id, no router address, no duplicate) asserted on the way.
@@ -562,3 +390,30 @@ fn c08_leading_bit_count_kernel() {
     kani::cover!(bit == MAX_BUCKETS, "equal ids");
     kani::cover!(bit == 159, "ids differing in the last bit only");
 }
+
+
+/// C12: a stored contact is found only under its full (id, address) handle: a query that claims a
+/// stored id from another address does not touch (and so cannot promote) the stored contact.
+#[kani::proof]
+#[kani::unwind(66)]
+#[kani::stub(std::hash::RandomState::new, crate::verif::stub_random_state_new)]
+fn c12_find_node_needs_id_and_address() {
+    clock::start_fixed();
+    let mut t = symbolic_table_n(2, 0);
+    let e_id = crate::verif::id_with_prefix(0, E_KEY);
+    let e_addr = concrete_addr_v4(E_KEY);
+    crate::bucket::verif::set_slot(&mut t.buckets[0], 3, Node::as_questionable(e_id, e_addr));
+    let other_addr = concrete_addr_v4(77);
+    assert!(t.find_node_mut(&NodeHandle::new(e_id, other_addr)).is_none(), "C12: a contact is found under a foreign address");
+    assert!(t.find_node_mut(&NodeHandle::new(crate::verif::id_with_prefix(0, 9), e_addr)).is_none(), "C12: a contact is found under a foreign id");
+    match t.find_node_mut(&NodeHandle::new(e_id, e_addr)) {
+        Some(n) => {
+            n.remote_request();
+            assert!(n.status() == NodeStatus::Good, "C10: a query from a known contact does not make it good");
+        }
+        None => assert!(false, "C12: a stored contact is not found under its own handle"),
+    }
+    kani::cover!(true, "end of harness reached");
+}
+
+
